@@ -1,3 +1,168 @@
-(* C14 placeholder while the correspondence is brought up *)
-From Coq Require Import ZArith.
-From DRF Require Import Model.Listing.
+(* C14 -- Listing is sound, complete, ordered and window-exact.
+   Property theorems only; each is closed by `exact` of a lemma and followed by Print Assumptions.
+
+   Model: Model/Listing.v -- _decorate_drf_files, _decorated_list_slice, _yield_matching_files and
+   ilsdrf over an abstract tree (File | Dir entries | Gone = a directory whose listing raises
+   OSError), over the file-name patterns l_re_* regenerated from list_drf.py on every run.
+   `variant` parametrises the four defect sites; `fixed` is the code after the repairs in /repo,
+   `legacy` the code before.  Which one /repo implements is decided on every run by the
+   correspondence (harness/props/c14.py); the theorems about `fixed` are the property, the
+   `_refuted` theorems about `legacy` are the findings (fixed in /repo; see known_findings.json).
+
+   A channel is described by D : list sub = its timestamped subdirectories (time, name, decorated
+   matched files or None when unlistable), sorted.  Hypotheses of the exactness theorems:
+   strict_sorted (distinct subdirectory times), all_listed (nothing vanishes during the listing),
+   consistent (the format's layout, C04: a file's name time lies in [its subdirectory's time, the
+   next subdirectory's time)), nonneg (name times are not negative -- proved for every match in
+   C14_yield_matching_spec), window_wf (start <= end). *)
+From Coq Require Import ZArith List Bool Sorted.
+From DRF Require Import Base.Regex Base.WordLit Gen.Grammar Model.PathSpec Model.Listing
+  Proofs.GrammarProofs Proofs.ListingProofs Proofs.ListingTreeProofs.
+Import ListNotations.
+Local Open Scope Z_scope.
+
+(* the per-channel listing IS the set-theoretic Spec: all matched files of all timestamped
+   subdirectories, sorted by (time, path), filtered by the inclusive window, preceded -- for a
+   metadata-yielding channel with a start time -- by the latest file before the start unless a file
+   is stamped exactly at it *)
+Theorem C14_channel_spec : forall ydmd st en D,
+  strict_sorted D -> all_listed D -> consistent D -> nonneg D -> window_wf st en ->
+  yield_channel fixed ydmd st en false D = (spec_channel ydmd st en false D, None).
+Proof. exact channel_spec. Qed.
+Print Assumptions C14_channel_spec.
+
+(* sound, complete and window-exact in one equivalence: listed iff it is a matched file of a
+   timestamped subdirectory whose time lies in [start, end], or it is the forward-fill file *)
+Theorem C14_window_exact : forall ydmd st en D,
+  strict_sorted D -> all_listed D -> consistent D -> nonneg D -> window_wf st en ->
+  forall x, In x (fst (yield_channel fixed ydmd st en false D)) <->
+    In x (ffill_extra ydmd st en (all_files D)) \/
+    ((exists d, In d D /\ In x (F d)) /\ win st en x = true).
+Proof. exact listing_in. Qed.
+Print Assumptions C14_window_exact.
+
+(* the forward-fill file: only for a metadata-yielding channel with a start time, a file of the
+   channel strictly before the start, present only when no file is stamped exactly at the start *)
+Theorem C14_ffill_file : forall ydmd st en A x, In x (ffill_extra ydmd st en A) ->
+  ydmd = true /\ exists s, st = Some s /\ In x A /\ fst x < s /\ (forall y, In y A -> fst y <> s).
+Proof. exact ffill_extra_in. Qed.
+Print Assumptions C14_ffill_file.
+
+(* ... it is the LATEST file before the start ... *)
+Theorem C14_ffill_latest : forall ydmd st en A x, StronglySorted dle A -> In x (ffill_extra ydmd st en A) ->
+  forall y s, st = Some s -> In y A -> fst y < s -> dle y x.
+Proof. exact ffill_extra_latest. Qed.
+Print Assumptions C14_ffill_latest.
+
+(* ... and there is at most one *)
+Theorem C14_ffill_at_most_one : forall ydmd st en A, (length (ffill_extra ydmd st en A) <= 1)%nat.
+Proof. exact ffill_extra_length. Qed.
+Print Assumptions C14_ffill_at_most_one.
+
+(* exactly once *)
+Theorem C14_listing_nodup : forall ydmd st en D,
+  strict_sorted D -> all_listed D -> consistent D -> nonneg D -> window_wf st en ->
+  forall reverse, NoDup (flat_map F D) -> NoDup (fst (yield_channel fixed ydmd st en reverse D)).
+Proof. exact listing_nodup. Qed.
+Print Assumptions C14_listing_nodup.
+
+(* ascending (time, path) order within the channel ... *)
+Theorem C14_listing_sorted : forall ydmd st en D,
+  strict_sorted D -> all_listed D -> consistent D -> nonneg D -> window_wf st en ->
+  StronglySorted dle (fst (yield_channel fixed ydmd st en false D)).
+Proof. exact listing_sorted. Qed.
+Print Assumptions C14_listing_sorted.
+
+(* ... and reversing changes only the order: for EVERY channel and window, no hypothesis *)
+Theorem C14_reverse_is_rev : forall ydmd st en D,
+  yield_channel fixed ydmd st en true D = (rev (fst (yield_channel fixed ydmd st en false D)), None).
+Proof. exact reverse_is_rev. Qed.
+Print Assumptions C14_reverse_is_rev.
+
+(* never fails on empty or vanishing subdirectories: for EVERY channel (subdirectories with no
+   files, with s_files = None), window and direction *)
+Theorem C14_never_fails_on_empty_or_vanished : forall ydmd st en reverse D,
+  snd (yield_channel fixed ydmd st en reverse D) = None.
+Proof. exact never_fails. Qed.
+Print Assumptions C14_never_fails_on_empty_or_vanished.
+
+(* whatever the variant and the direction, only matched files of the channel's own timestamped
+   subdirectories are ever yielded *)
+Theorem C14_channel_sound_any_variant : forall v ydmd st en reverse D x,
+  In x (fst (yield_channel v ydmd st en reverse D)) -> exists d, In d D /\ In x (F d).
+Proof. exact yield_channel_subset. Qed.
+Print Assumptions C14_channel_sound_any_variant.
+
+(* _yield_matching_files of a channel directory equals the Spec of its decorated subdirectories *)
+Theorem C14_yield_matching_spec : forall o dirs props r ydmd subs others,
+  file_regex (existsb (matches listing_ci l_re_drfpropfile) props)
+             (existsb (matches listing_ci l_re_dmdpropfile) props) (o_flags o) = Some (r, ydmd) ->
+  classify_dirs r dirs = Some (subs, others) ->
+  let D := isort sub_leb subs in
+  strict_sorted D -> all_listed D -> consistent D -> window_wf (o_start o) (o_end o) ->
+  yield_matching fixed o dirs props =
+    (map snd (spec_channel ydmd (o_start o) (o_end o) (o_reverse o) D), None, others).
+Proof. exact yield_matching_spec. Qed.
+Print Assumptions C14_yield_matching_spec.
+
+(* the whole walk, every variant: a listed path is a selected properties file of the directory
+   holding it, or sub/name with sub a timestamped subdirectory of a directory holding a properties
+   file and name matched by the file pattern that the flags and that directory's properties files
+   select (listed_ok, Proofs/ListingTreeProofs.v): never outside the structure, never an excluded
+   kind, never in a directory without a properties file *)
+Theorem C14_listing_sound : forall v o t p, In p (fst (walk v o t)) -> listed_ok o t p.
+Proof. exact walk_sound. Qed.
+Print Assumptions C14_listing_sound.
+
+(* never a tmp. file: the last component of a listed path never starts with tmp. *)
+Theorem C14_never_tmp : forall v o t p, In p (fst (lsdrf v o t)) ->
+  exists base, has_basename p base /\ starts_with (W "tmp.") base = false.
+Proof. exact lsdrf_never_tmp. Qed.
+Print Assumptions C14_never_tmp.
+
+(* no matching name is lost in _decorate_drf_files (the defaulted branch of the model is dead) *)
+Theorem C14_decorate_complete : forall r sub names nm,
+  file_re r -> In nm names -> rmatch listing_ci r nm <> None ->
+  exists t, In (t, join2 sub nm) (decorate r sub names).
+Proof. exact decorate_complete. Qed.
+Print Assumptions C14_decorate_complete.
+
+(* properties files according to their own flags, first in their directory's listing *)
+Theorem C14_props_by_flags : forall v o es, props_of es <> [] ->
+  exists rest, fst (walk v o (Dir es)) =
+    match prop_regex (o_flags o) with
+    | Some pr => sort_words (o_reverse o) (filter (matches listing_ci pr) (props_of es))
+    | None => []
+    end ++ rest.
+Proof. exact props_by_flags. Qed.
+Print Assumptions C14_props_by_flags.
+
+(* the slice itself, on any list sorted by time: forward-fill entry ++ window filter *)
+Theorem C14_slice_sorted : forall (A : Type) (time : A -> Z) l st en ff,
+  tsorted time l -> window_wf st en ->
+  snd (slice fixed time l st en ff) = ffpre time ff st l ++ filter (wok time st en) l.
+Proof. exact @slice_sorted. Qed.
+Print Assumptions C14_slice_sorted.
+
+(* ---- the code before the repairs (variant legacy) falsifies the statements: the findings *)
+Theorem C14_reverse_is_rev_refuted :
+  fst (yield_channel legacy true (Some 113) None true exD)
+  <> rev (fst (yield_channel legacy true (Some 113) None false exD)).
+Proof. exact legacy_reverse_refuted. Qed.
+Print Assumptions C14_reverse_is_rev_refuted.
+
+Theorem C14_never_fails_refuted_indexerror :
+  snd (yield_channel legacy true (Some 150) None false exD_empty_middle) = Some IndexError.
+Proof. exact legacy_indexerror_refuted. Qed.
+Print Assumptions C14_never_fails_refuted_indexerror.
+
+Theorem C14_never_fails_refuted_oserror :
+  snd (yield_channel legacy true (Some 205) None false exD_gone_middle) = Some OSErrorE.
+Proof. exact legacy_oserror_refuted. Qed.
+Print Assumptions C14_never_fails_refuted_oserror.
+
+Theorem C14_window_exact_refuted :
+  ~ In (5, W "A/b") (fst (yield_channel legacy false None (Some 5) false exD_dups)) /\
+  In (5, W "A/b") (fst (yield_channel fixed false None (Some 5) false exD_dups)).
+Proof. exact legacy_endtime_refuted. Qed.
+Print Assumptions C14_window_exact_refuted.
